@@ -112,10 +112,10 @@ func (k *check) damageJobs() (jobs, post []func()) {
 	seed := c.Seed
 	plans := []plan{
 		{"mock-tiny", cw.DamageJob{Payload: "mock:90:1", TruncAll: true, FlipMasks: masks, Special: true, Sentinels: sentinels}, 1},
-		{"mock-1k", cw.DamageJob{Payload: "mock:1500:2", TruncAll: true, FlipMasks: masks, Random: c.N(2000, 100000)}, c.N(2, 8)},
-		{"mock-4k", cw.DamageJob{Payload: "mock:7000:3", TruncAllMax: 8192, FlipMasks: masks, FlipAllMax: 4096, Random: c.N(1000, 100000)}, c.N(2, 8)},
+		{"mock-1k", cw.DamageJob{Payload: "mock:1500:2", TruncAll: true, FlipMasks: masks, Random: c.N(1000, 100000)}, c.N(2, 8)},
+		{"mock-4k", cw.DamageJob{Payload: "mock:7000:3", TruncAllMax: 8192, FlipMasks: masks, FlipAllMax: 4096, Random: c.N(500, 100000)}, c.N(2, 8)},
 		{"sources-tiny", cw.DamageJob{Payload: tiny, TruncAll: true, FlipMasks: masks, Random: c.N(500, 100000), Special: true}, c.N(2, 16)},
-		{"sources-corpus-package", cw.DamageJob{Payload: small, TruncAllMax: 16384, TruncExtra: c.N(300, 3000), FlipMasks: masks, FlipAllMax: 4096, Random: c.N(1000, 100000)}, c.N(4, 16)},
+		{"sources-corpus-package", cw.DamageJob{Payload: small, TruncAllMax: 8192, TruncExtra: c.N(300, 3000), FlipMasks: masks, FlipAllMax: 4096, Random: c.N(1000, 100000)}, c.N(4, 16)},
 	}
 	if !c.Quick() {
 		plans[0].job.FlipMasks = allMasks
